@@ -1649,6 +1649,9 @@ var c04Fixed = []string{
 	"C04 case 1 2 RU 1 " + vh.HexRunes("example.org") + " 2 M 1 R 1 " + vh.HexRunes("alice@example.org") + " 2 " + vh.HexRunes("bob@example.org") + " " + vh.HexRunes("carol@example.com") +
 		" RR 2 RU 1 " + vh.HexRunes("example.org") + " 1 D 1 DF 1 D 2 DF 1 RJ 521 5 0 0 | 2 E " + vh.HexRunes("x@example.com") + " 2 " + vh.HexRunes("alice@example.org") + " " + vh.HexRunes("bob@example.com") +
 		" V " + vh.HexRunes("x@EXAMPLE.com") + " 2 " + vh.HexRunes("ALICE@Example.Org") + " " + vh.HexRunes("Bob@example.com"),
+	// 1-to-2 rewrite whose second address is refused: the RCPT is refused after the first address was handed off
+	"C04 case 0 3 M 1 R 1 " + vh.HexRunes("carol@example.org") + " 2 " + vh.HexRunes("alice@example.org") + " " + vh.HexRunes("bob@example.com") +
+		" RU 1 " + vh.HexRunes("example.org") + " 1 D 0 DF 1 RJ 550 5 7 1 | 1 E " + vh.HexRunes("x@example.com") + " 1 " + vh.HexRunes("carol@example.org"),
 	// address rule declared after the domain rule still wins; duplicates: first declaration wins
 	"C04 case 0 4 RU 1 " + vh.HexRunes("example.org") + " 1 D 0 RU 2 " + vh.HexRunes("Alice@EXAMPLE.org") + " " + vh.HexRunes("example.org") + " 1 D 1 RU 1 " + vh.HexRunes("alice@example.org") + " 1 D 2 DF 1 RJ 554 5 7 0 | 1 E " +
 		vh.HexRunes("") + " 3 " + vh.HexRunes("alice@example.org") + " " + vh.HexRunes("bob@example.org") + " " + vh.HexRunes("bob@example.com"),
